@@ -86,6 +86,7 @@ class WaveDriver:
         self.hold = False  # when True the driver releases nothing (used by C17 while an interrupt is pending)
         self.error = None
         self.open = False  # when True gate() does not block any more
+        self.on_tick = None  # called on every sampling round (also when no quiescent state is found)
 
     # -- called from inside the plan's functions
     def gate(self, key):
@@ -169,6 +170,8 @@ class WaveDriver:
         spins = 0
         while not self.stopping:
             spins += 1
+            if self.on_tick is not None:
+                self.on_tick()
             if spins == 60000:
                 self._diagnose()
             with self.lock:
